@@ -29,3 +29,16 @@ Theorem C04_readers_independent : forall fault root ops sts i,
   of_reader i (multi_run fault root sts ops) = reader_run fault root (nth i sts rs0) (of_reader i ops).
 Proof. exact readers_independent. Qed.
 Print Assumptions C04_readers_independent.
+
+(* the same for file nodes whose children have to be opened to be measured (File/Unsized.v) *)
+From UV Require Import File.Unsized File.UnsizedProofs File.UnsizedSafe.
+Theorem C04_unsized_reader_refines : forall root, uwell root = true ->
+  forall ops st, rinv (content root) st ->
+    map forget_loads (ureader_run nofault root st ops) = abs_run (content root) (r_off st) ops.
+Proof. exact ureader_refines. Qed.
+Print Assumptions C04_unsized_reader_refines.
+
+Theorem C04_unsized_failed_seek_keeps_state : forall fault root st off whence o st',
+  ureader_step fault root st (OpSeek off whence) = (st', OSeek (Err o)) -> st' = st.
+Proof. exact useek_error_keeps_state. Qed.
+Print Assumptions C04_unsized_failed_seek_keeps_state.
